@@ -172,10 +172,10 @@ __CPROVER_ensures(__CPROVER_return_value == 0)
 __CPROVER_ensures(VF_BN_WF(*dst) && dst->count == __CPROVER_old(src->count) && VF_BN_VAL(*dst) == VF_BN_OLDVAL(src))
 ;
 static inline void
-bn_assign_zero(bn_p bn)
-__CPROVER_requires(VF_BN_OK(bn) && VF_BN_CNT_OK(bn))
-__CPROVER_assigns(bn->digits)
-__CPROVER_ensures(VF_BN_WF(*bn) && VF_BN_VAL(*bn) == 0)
+bn_assign_zero(bn_p bn)	/* NULL is tolerated (bn_div passes its optional remainder) */
+__CPROVER_requires(bn == NULL || (VF_BN_OK(bn) && VF_BN_CNT_OK(bn)))
+__CPROVER_assigns(bn != NULL: bn->digits)
+__CPROVER_ensures(bn == NULL || (VF_BN_WF(*bn) && VF_BN_VAL(*bn) == 0))
 ;
 static inline int
 bn_assign_2exp(bn_p bn, size_t exp)
